@@ -617,7 +617,31 @@ func exec(op string) string {
 		if c == nil {
 			return "closed"
 		}
+		// close callbacks of the application: benign, panicking (recovered by the owner's scheduler),
+		// per connection (AddOnSessionOnClose) or the sessions' own handler (SetOnCloseHandler)
+		front := kv("f")
+		switch cb := kv("cb"); cb {
+		case "ok", "panic":
+			n.RunOn(front, func(ns *service.NodeService) {
+				impls.AddOnSessionOnClose(ns, c.NetId(), func(_ *service.NodeService, fs *cs.FrontSession) {
+					_ = fs.ToJson()
+					if cb == "panic" {
+						panic("verif: close callback panics")
+					}
+				})
+			})
+		case "glob":
+			n.RunOn(front, func(ns *service.NodeService) {
+				n.Sessions(front).SetOnCloseHandler(func(_ *service.NodeService, fs *cs.FrontSession) {
+					panic("verif: sessions close handler panics")
+				})
+			})
+		}
 		c.Close()
+		n.Wait()
+		if kv("cb") == "glob" {
+			n.RunOn(front, func(ns *service.NodeService) { n.Sessions(front).SetOnCloseHandler(nil) })
+		}
 		delete(w.conns, key)
 		return "ok"
 
@@ -766,6 +790,25 @@ type gen struct {
 	nOpen   map[string]int
 	handles []string
 	nh      int
+	sets    map[string][]string // handle -> the set statements it ran so far
+}
+
+// remember records the set/bind statements of a script under the handle that ran it
+func (g *gen) remember(h, script string) {
+	for _, o := range strings.Split(script, ";") {
+		if strings.HasPrefix(o, "set/") || strings.HasPrefix(o, "bind/") {
+			g.sets[h] = append(g.sets[h], o)
+		}
+	}
+}
+
+func keptHandle(script string) string {
+	for _, o := range strings.Split(script, ";") {
+		if strings.HasPrefix(o, "keep/") {
+			return o[5:]
+		}
+	}
+	return ""
 }
 
 var keyPool = []string{"k", "level", "名前", "a.b", "<&>", "", "ключ", "k2", "x y"}
@@ -952,6 +995,7 @@ func (g *gen) caseOps(nops int) []string {
 	g.nOpen = map[string]int{}
 	g.handles = nil
 	g.nh = 0
+	g.sets = map[string][]string{}
 	ops := []string{"reset"}
 	open := func(f string) {
 		g.nOpen[f]++
@@ -988,13 +1032,29 @@ func (g *gen) caseOps(nops int) []string {
 		case x < 55: // forwarded request
 			f, n := g.pickConn(true)
 			g.h.Count("op.req.forward")
-			ops = append(ops, fmt.Sprintf("req f=%s n=%d svc=chat ntf=%d s=%s", f, n, hx.B2i(r.Intn(6) == 0), g.script(false, true)))
+			sc := g.script(false, true)
+			if h := keptHandle(sc); h != "" {
+				g.remember(h, sc)
+			}
+			ops = append(ops, fmt.Sprintf("req f=%s n=%d svc=chat ntf=%d s=%s", f, n, hx.B2i(r.Intn(6) == 0), sc))
 		case x < 72: // a kept / made back session acts later
 			if len(g.handles) == 0 {
 				continue
 			}
 			g.h.Count("op.on")
-			ops = append(ops, fmt.Sprintf("on h=%s s=%s", g.handles[r.Intn(len(g.handles))], g.script(false, false)))
+			h := g.handles[r.Intn(len(g.handles))]
+			sc := g.script(false, false)
+			if prev := g.sets[h]; len(prev) > 0 && r.Intn(5) < 2 {
+				// set a key AGAIN to the value this very session set before (someone else may have
+				// pushed another value for it meanwhile) and push: the later push must win
+				g.h.Count("op.on.reset-same-value")
+				sc = prev[r.Intn(len(prev))] + ";push"
+				if r.Intn(3) == 0 {
+					sc += ";" + g.script(false, false)
+				}
+			}
+			g.remember(h, sc)
+			ops = append(ops, fmt.Sprintf("on h=%s s=%s", h, sc))
 		case x < 78: // NewBackSession made directly inside a service
 			g.nh++
 			hn := "h" + strconv.Itoa(g.nh)
@@ -1006,6 +1066,29 @@ func (g *gen) caseOps(nops int) []string {
 			}
 			g.h.Count("op.mk")
 			ops = append(ops, fmt.Sprintf("mk h=%s at=%s f=%s n=%d uid=%s", hn, []string{"chat-1", "chat-2", "gate-2"}[r.Intn(3)], f, n, hk(uids[r.Intn(len(uids))])))
+		case x < 81: // A sets k=v and pushes, B sets k=w and pushes, A sets k=v again and pushes
+			f, n := g.pickConn(true)
+			g.nh += 2
+			a, b := "h"+strconv.Itoa(g.nh-1), "h"+strconv.Itoa(g.nh)
+			g.handles = append(g.handles, a, b)
+			k := hk(keyPool[r.Intn(len(keyPool))])
+			if r.Intn(3) == 0 {
+				k = hk("chatid")
+			}
+			va, vb := valField([]string{"chat-1", "v-a"}[r.Intn(2)]), valField([]string{"chat-2", "v-b"}[r.Intn(2)])
+			if r.Intn(3) == 0 {
+				va = valField(g.value(0))
+			}
+			sa := "set/" + k + "/" + va
+			g.h.Count("op.aba")
+			ops = append(ops,
+				fmt.Sprintf("mk h=%s at=chat-1 f=%s n=%d uid=", a, f, n),
+				fmt.Sprintf("mk h=%s at=chat-2 f=%s n=%d uid=", b, f, n),
+				fmt.Sprintf("on h=%s s=%s;push", a, sa),
+				fmt.Sprintf("on h=%s s=set/%s/%s;push", b, k, vb),
+				fmt.Sprintf("on h=%s s=%s;push", a, sa), "snap")
+			g.remember(a, sa)
+			g.remember(b, "set/"+k+"/"+vb)
 		case x < 84:
 			f, n := g.pickConn(true)
 			l := g.open[f]
@@ -1015,7 +1098,18 @@ func (g *gen) caseOps(nops int) []string {
 				}
 			}
 			g.h.Count("op.close")
-			ops = append(ops, fmt.Sprintf("close f=%s n=%d", f, n))
+			cb := []string{"", "", "ok", "panic", "panic", "glob"}[r.Intn(6)]
+			if cb != "" {
+				g.h.Count("op.close.cb=" + cb)
+				cb = " cb=" + cb
+			}
+			ops = append(ops, fmt.Sprintf("close f=%s n=%d%s", f, n, cb))
+			if r.Intn(2) == 0 {
+				// whoever still holds a session of some connection acts right after the close
+				if len(g.handles) > 0 {
+					ops = append(ops, fmt.Sprintf("on h=%s s=%s", g.handles[r.Intn(len(g.handles))], []string{"set/" + hk("k") + "/" + valField("late") + ";push;query", "query;json", "bind/" + hk("u2") + ";push"}[r.Intn(3)]), "snap")
+				}
+			}
 		case x < 88:
 			g.h.Count("op.open")
 			f := frontNames[r.Intn(2)]
